@@ -102,8 +102,11 @@ pub fn check(c: &Case, obs: &mut Obs) -> R {
                     }
                     (Err(a), Err(b2)) if a == b2 => {}
                     (a, b2) => {
+                        // the same known divergence (FIELD order + NULLS on MySQL) can show as a run-time failure on one side only
+                        // (INSERT .. SELECT .. LIMIT picks another row, which then violates a key)
+                        let field_with_nulls = d == Dialect::Mysql && regex_lite_field_nulls(&serde_json::to_string(st).unwrap_or_default());
                         return fail(
-                            format!("{}-{mode}-outcome-differs", d.name()),
+                            if field_with_nulls { "mysql/field-order-with-nulls".to_string() } else { format!("{}-{mode}-outcome-differs", d.name()) },
                             format!("{} {mode}: {text:?}\ntransliterated: {tl:?}\nbaseline outcome {:?}\nthis outcome {:?}\nspec {st:?}", d.name(), a.as_ref().map(|o| o.rows.len()), b2.as_ref().map(|o| o.rows.len())),
                         )
                     }
